@@ -30,7 +30,7 @@ def check(ctx):
     proved = ctx.prove("props/C12.v", ["proofs/PolyFacts.v", "proofs/WrapGenBounds.v"])
     ctx.build(["model/PolyDomain.vo", "base/Farkas.vo"])
     rng = random.Random(ctx.seed + 12)
-    n = (200 if ctx.quick else 4000) * (1 if proved else 3)
+    n = (200 if ctx.quick else 30000) * (1 if proved else 3)
     exprs, cases, seen = [], [], set()
     hist = {}
     for k in range(n):
